@@ -907,7 +907,8 @@ impl DesignRoot {
 
     /// Resets the analysis state of all design units which need to be re-analyzed
     /// because another design unit has been added or removed.
-    fn reset(&mut self) {
+    /// Returns the design units which have been removed.
+    fn reset(&mut self) -> FnvHashSet<UnitId> {
         let mut removed = FnvHashSet::default();
         let mut added = FnvHashSet::default();
 
@@ -1002,6 +1003,11 @@ impl DesignRoot {
             users.retain(|user| !all_affected.contains(user));
             !users.is_empty()
         });
+        drop(users_of);
+        drop(users_of_library_all);
+        drop(missing_unit);
+
+        removed
     }
 
     fn analyze_standard_package(&mut self) {
@@ -1169,7 +1175,7 @@ impl DesignRoot {
 
     // Returns the units that where re-analyzed
     pub fn analyze(&mut self, diagnostics: &mut dyn DiagnosticHandler) -> Vec<UnitId> {
-        self.reset();
+        let removed = self.reset();
 
         let mut units = Vec::default();
         for library in self.libraries.values() {
@@ -1218,6 +1224,21 @@ impl DesignRoot {
             for unit_id in library.sorted_unit_ids() {
                 let unit = library.units.get(unit_id.key()).unwrap();
                 diagnostics.append(unit.unit.expect_analyzed().result().diagnostics.clone());
+            }
+        }
+
+        // The primary unit of a removed secondary unit is reported as well, what is
+        // known about it together with its secondary units (lints) is out of date
+        for removed_unit in removed.iter() {
+            if let AnyKind::Secondary(..) = removed_unit.kind() {
+                let primary = self
+                    .get_lib(removed_unit.library_name())
+                    .and_then(|library| library.primary_unit(removed_unit.primary_name()));
+                if let Some(primary) = primary {
+                    if !units.contains(primary.unit_id()) {
+                        units.push(primary.unit_id().clone());
+                    }
+                }
             }
         }
 
